@@ -129,6 +129,9 @@ parsec_arena_get_chunk( parsec_arena_t *arena, size_t size, parsec_data_allocate
     const char *allocation_error = "out of resource";
     item = parsec_lifo_pop(list);
     if( NULL != item ) {
+#if defined(PARSEC_VERIF)
+        PARSEC_VERIF_YIELD(PARSEC_VERIF_SITE_ARENA);
+#endif
         if( arena->max_released != INT32_MAX )
             (void)parsec_atomic_fetch_dec_int32(&arena->released);
     }
@@ -176,6 +179,9 @@ parsec_arena_release_chunk(parsec_arena_t* arena,
         PARSEC_DEBUG_VERBOSE(10, parsec_debug_output, "Arena:\tpush a data of size %zu from arena %p, aligned by %zu, base ptr %p, data ptr %p, sizeof prefix %zu(%zd)",
                 arena->elem_size, arena, arena->alignment, chunk, chunk->data, sizeof(parsec_arena_chunk_t),
                 PARSEC_ARENA_MIN_ALIGNMENT(arena->alignment));
+#if defined(PARSEC_VERIF)
+        PARSEC_VERIF_YIELD(PARSEC_VERIF_SITE_ARENA);
+#endif
         if(arena->max_released != INT32_MAX) {
             (void)parsec_atomic_fetch_inc_int32(&arena->released);
         }
